@@ -27,6 +27,11 @@
 
 static rng_t *R;
 static long tainted_bytes = 0, ops = 0;
+/* --arg secrets=<file>: no taint marking; every secret byte (keys, plaintext, fed entropy, getrandom output) is taken
+ * from the file instead, so that two runs with different files differ ONLY in secret values.  Used by the thorough
+ * tier under valgrind's lackey tool: the instruction/data address traces of the two runs must be identical. */
+static uint8_t *sec_pool = 0; static size_t sec_len = 0, sec_pos = 0;
+static void sec_take(uint8_t *p, size_t n) { for (size_t i = 0; i < n; ++i) { p[i] = sec_pool[sec_pos]; sec_pos = sec_pos + 1 == sec_len ? 0 : sec_pos + 1; } }
 
 /* system entropy: deterministic bytes, marked secret */
 static uint64_t gr_state = 99;
@@ -34,6 +39,7 @@ ssize_t getrandom(void *buf, size_t n, unsigned flags)
 {
     unsigned char *p = (unsigned char *)buf;
     (void)flags;
+    if (sec_pool) { sec_take(p, n); return (ssize_t)n; }
     for (size_t i = 0; i < n; ++i) { uint64_t x = gr_state++; p[i] = (unsigned char)(vf_splitmix(&x) >> 23); }
     TAINT(buf, n);
     tainted_bytes += (long)n;
@@ -44,6 +50,7 @@ static uint8_t *secret(size_t n)
 {
     uint8_t *p = (uint8_t *)galloc(n, (int)rng_below(R, 2));
     rng_bytes(R, p, n);
+    if (sec_pool) { sec_take(p, n); return p; }
     TAINT(p, n);
     tainted_bytes += (long)n;
     return p;
@@ -213,6 +220,17 @@ int main(int argc, char **argv)
         gfree(s);
         vf_finish();
         return 0;
+    }
+    if (a.arg && !strncmp(a.arg, "secrets=", 8)) {
+        FILE *f = fopen(a.arg + 8, "rb");
+        if (!f) { fprintf(stderr, "HARNESS cannot open %s\n", a.arg + 8); return 2; }
+        sec_pool = (uint8_t *)malloc(1 << 16);
+        sec_len = fread(sec_pool, 1, 1 << 16, f);
+        fclose(f);
+        if (sec_len < 4096) { fprintf(stderr, "HARNESS secrets file too small\n"); return 2; }
+        /* trace marker: 12 consecutive 8-byte stores to one address; the trace comparison starts after it
+         * (process start-up in ld.so touches kernel-provided random bytes and is not part of the workload) */
+        { static volatile uint64_t vf_trace_marker; for (int i = 0; i < 12; ++i) vf_trace_marker = 0x4d41524b4552ULL; }
     }
     for (int rep = 0; rep < reps; ++rep) {
         for (size_t f = 0; f < NFAM; ++f)
